@@ -427,8 +427,12 @@ func ruleReplayWindow(c *Ctx, r *Report) {
 			}
 		}
 		want := uint64(1)<<48 - 1
-		if strings.Contains(key, "protectedReplayMarker") {
-			want = ^uint64(0)
+		if m13 := c.Fn("(*dtls.Conn).protectedReplayMarker"); m13 != nil {
+			for _, u := range c.unitFuncs(m13) {
+				if u == s.Fn {
+					want = ^uint64(0) // DTLS 1.3: 64-bit record numbers
+				}
+			}
 		}
 		r.Check(isC && u == want, rule, key+":max-seq", c.ipos(call), fmt.Sprintf("max sequence %#x", u), fmt.Sprintf("detector's maximum sequence number is %#x, the protocol's is %#x", u, want))
 		// per-epoch: appended to Common.ReplayDetector inside a loop bounded by the epoch
@@ -743,16 +747,31 @@ func ruleCommitMarksWindow(c *Ctx, r *Report) {
 			// what the commit function reports ("this was the newest record of its epoch": the
 			// condition for a path challenge / address switch) is the detector's own answer
 			reportsAccept := true
+			var acceptCalls []ssa.Value
 			for _, lb := range lit.Blocks {
-				lret, isRet := lb.Instrs[len(lb.Instrs)-1].(*ssa.Return)
-				if !isRet || len(lret.Results) != 1 {
-					continue
+				for _, li := range lb.Instrs {
+					if isAcceptCall(li) {
+						acceptCalls = append(acceptCalls, li.(*ssa.Call))
+					}
 				}
-				if !allLeaves(c.Origins(unspill(lret.Results[0]), 0), func(v ssa.Value) bool {
-					cl, isCall := v.(*ssa.Call)
-					return isCall && isAcceptCall(cl)
-				}) {
+			}
+			for _, answer := range []bool{true, false} {
+				ans := answer
+				wl := (&Walk{Fn: lit, Assume: func(v ssa.Value) (Val, bool) {
+					for _, ac := range acceptCalls {
+						if v == ac {
+							return vBool(ans), true
+						}
+					}
+					return unknown, false
+				}}).FromEntry()
+				if len(wl.Returns) == 0 {
 					reportsAccept = false
+				}
+				for _, ro := range wl.Returns {
+					if len(ro.Vals) != 1 || ro.Vals[0].Kind != 1 || ro.Vals[0].B != ans {
+						reportsAccept = false
+					}
 				}
 			}
 			r.Check(reportsAccept, "commit-reports-latest", key, c.ipos(ret), "the commit function returns what the detector's accept function returned", "the commit function's result is not the detector's answer: every accepted record is reported as (or never as) the newest one, which is what gates path challenges and the switch of the peer address")
